@@ -603,6 +603,11 @@ func registerType(tov reflect.Type) error {
 			n := int(binary.BigEndian.Uint32(packet[:4]))
 			packet = packet[4:]
 
+			// check the declared number of items before allocating room for them
+			if n > len(packet) {
+				return nil, nil, fmt.Errorf("incorrect data length")
+			}
+
 			x := reflect.MakeMapWithSize(tov, n)
 			if value == nil {
 				value = &x
@@ -612,10 +617,6 @@ func registerType(tov reflect.Type) error {
 
 			if n == 0 {
 				return value, packet, nil
-			}
-
-			if n > len(packet) {
-				return nil, nil, fmt.Errorf("incorrect data length")
 			}
 
 			if state.child == nil {
